@@ -217,7 +217,7 @@ def solver_part(tier, known):
   from vf.e2 import harness, check
   FUNCTIONS[:] = propbase.functions_of(SCN, scenarios(tier)[0][0])
   n = 8 if tier == "quick" else 30
-  out = propbase.run(specs(tier), known, signature, jobs=11,
+  out = propbase.run(specs(tier), known, signature, jobs=11, pred_signatures={"late_stale": "race:timer-check-then-post"},
                      differential=lambda: harness.stopping_differential(dict(action="stop", sources=1, times=2, pending=1), n, seed=13))
   # isolation: the translated stop() has no operation on another object's run flag or on the fabric's
   sc, sysm = check.build(SCN, scenarios(tier)[0][0])
